@@ -90,6 +90,22 @@ func c12Shapes() []c12Shape {
 				return fmt.Sprintf("hw count=%d", int64(math.MaxInt64))
 			}
 		}},
+		{"duration-histogram-odd-bounds", func(r m3.Reporter) (int32, func(int) string) {
+			// bounds that print longer as a time.Duration ("11.390625ms") than as seconds ("0.011391")
+			h := r.AllocateHistogram("ho", nil, tally.MustMakeExponentialDurationBuckets(time.Millisecond, 1.5, 16))
+			sizes := m3.VerifBucketChargedSizes(h)
+			var max int32
+			for _, s := range sizes {
+				if s > max {
+					max = s
+				}
+			}
+			ups := tally.MustMakeExponentialDurationBuckets(time.Millisecond, 1.5, 16)
+			return max, func(v int) string {
+				h.DurationBucket(0, ups[6+v%3]).ReportSamples(math.MaxInt64)
+				return fmt.Sprintf("ho count=%d", int64(math.MaxInt64))
+			}
+		}},
 		{"duration-histogram-buckets-3tags", func(r m3.Reporter) (int32, func(int) string) {
 			h := r.AllocateHistogram("hd", c12Tags(3), tally.DurationBuckets{time.Millisecond, time.Second})
 			sizes := m3.VerifBucketChargedSizes(h)
@@ -242,6 +258,8 @@ func c12Run(kind string, ncommon int, limitSpec string, seq []int, reps int) (st
 					fmt.Sscan(up, &u)
 				}
 				got = append(got, fmt.Sprintf("hv count=%d bucket<=%v", m.Value.Count, u))
+			case m.Name == "ho":
+				got = append(got, fmt.Sprintf("ho count=%d", m.Value.Count))
 			case m.Name == "hw":
 				got = append(got, fmt.Sprintf("hw count=%d", m.Value.Count))
 			case m.Name == "hd":
@@ -369,7 +387,7 @@ func c12LemmaJob(tier string) *SeqJob {
 	nameLens := []int{1, 127, 128, 600}
 	tagCounts := []int{0, 1, 8, 13, 14, 15, 16}
 	tagLens := []int{1, 127, 128}
-	kinds := []string{"counter", "gauge", "timer", "vbucket-first", "vbucket-wide", "dbucket"}
+	kinds := []string{"counter", "gauge", "timer", "vbucket-first", "vbucket-wide", "dbucket", "dbucket-odd"}
 	ks := []int{1, 14, 15, 16, 130}
 	run := func(proto string, ncommon int, kind string, nameLen, nTags, tagLen int) (string, string, int) {
 		s := newFastSink()
@@ -421,6 +439,11 @@ func c12LemmaJob(tier string) *SeqJob {
 					h := r.AllocateHistogram(name, tags, tally.ValueBuckets{1, 1e15})
 					charged = m3.VerifBucketChargedSizes(h)[1]
 					report = func() { h.ValueBucket(0, 1e15).ReportSamples(math.MinInt64) }
+				case "dbucket-odd":
+					ups := tally.MustMakeExponentialDurationBuckets(time.Millisecond, 1.5, 16)
+					h := r.AllocateHistogram(name, tags, ups)
+					charged = m3.VerifBucketChargedSizes(h)[7]
+					report = func() { h.DurationBucket(0, ups[7]).ReportSamples(math.MinInt64) }
 				case "dbucket":
 					h := r.AllocateHistogram(name, tags, tally.DurationBuckets{time.Millisecond, 1001*time.Hour + time.Millisecond})
 					charged = m3.VerifBucketChargedSizes(h)[1]
